@@ -383,8 +383,13 @@ def check_call(case, rec):
     elif entry == "transform_array":
         f = A("field", rs.standard_normal(n) * 1.3 + 0.4)
         vals = A("values", [1.0, 2.0, 4.0])
+        vals_u = A("values_unsorted", np.array([4.0, 1.0, 2.0]))
+        thr = A("thresholds", np.array([-0.5, 0.5]))
         calls = [
             ("array_discrete", lambda: gtf.array_discrete(f, [1.0, 2.0, 4.0])),
+            ("array_discrete(unsorted ndarray values)", lambda: gtf.array_discrete(f, vals_u)),
+            ("array_discrete(unsorted values, equal)", lambda: gtf.array_discrete(f, vals_u, thresholds="equal")),
+            ("array_discrete(ndarray thresholds)", lambda: gtf.array_discrete(f, vals_u, thresholds=thr)),
             ("array_discrete(equal)", lambda: gtf.array_discrete(f, vals, thresholds="equal")),
             ("array_discrete(list thresholds)", lambda: gtf.array_discrete(f, vals, thresholds=[-0.5, 0.5])),
             ("array_boxcox", lambda: gtf.array_boxcox(f, lmbda=0.5, shift=10.0)),
